@@ -70,6 +70,10 @@ pub struct ClusterWorld {
     pub out_of_scope: bool,
     /// cap on messages recorded per node (raised during fair completion)
     pub msg_cap: usize,
+    /// C05 monitors of the real nodes' own votes, fresh judge pools and what they reported
+    pub mons: Vec<crate::nodesys::Mon>,
+    pub judges: Vec<PoolH>,
+    pub own_vote_violations: Vec<(String, String)>,
     /// finalization events of each real node's pool
     pub fins: Vec<Vec<alpenglow::consensus::verif::VerifFinalization>>,
 }
@@ -176,6 +180,20 @@ impl ClusterSys {
 
     fn collect(&self, w: &mut ClusterWorld, n: usize) {
         for m in w.cores[n].take_out() {
+            if let ConsensusMessage::Vote(v) = &m {
+                let found = w.mons[n].observe_vote(v, self.nodes[n]);
+                w.own_vote_violations.extend(found);
+                match validate_vote_cached(v, &self.epoch) {
+                    None => w.own_vote_violations.push(("C05:own-vote-invalid".to_string(), "own vote fails validation".to_string())),
+                    Some(vv) => {
+                        let (r, _) = w.judges[n].add_vote(vv);
+                        let (name, off) = verdict_of(&r);
+                        if name == "Slashable" {
+                            w.own_vote_violations.push((format!("C05:own-votes-slashable:{}", off.unwrap_or_default()), format!("the votes of real node v{} form a slashable combination at a fresh pool: {v:?}", self.nodes[n])));
+                        }
+                    }
+                }
+            }
             if w.emitted[n].len() < w.msg_cap {
                 w.emitted[n].push(m);
             } else {
@@ -202,7 +220,9 @@ impl ClusterSys {
                 None => Out::default(),
             },
         };
+        w.fins[n].extend(o.fins);
         for e in o.events {
+            w.mons[n].observe_pool_event(&e);
             w.cores[n].q.push_back(e);
         }
         self.settle(w, n);
@@ -223,6 +243,9 @@ impl ClusterSys {
             out_of_scope: false,
             msg_cap: self.max_msgs,
             fins: vec![Vec::new(); h],
+            mons: (0..h).map(|_| crate::nodesys::Mon::default()).collect(),
+            judges: self.nodes.iter().map(|_| PoolH::new(&self.epoch, self.byz)).collect(),
+            own_vote_violations: Vec::new(),
         }
     }
 
@@ -234,11 +257,13 @@ impl ClusterSys {
             w.cores[i].blockstore_event(BlockstoreEvent::FirstShred(slot));
         }
         w.blocks_known.insert(blk_id(b), blk_id(p));
+        w.mons[i].blocks_known.insert(blk_id(b), blk_id(p));
         w.cores[i].blockstore_event(BlockstoreEvent::Block { slot, block_info: BlockInfo::verif_new(blk_hash(b), blk_id(p)) });
         self.collect(w, i);
         let o = w.cores[i].pool.add_block(blk_id(b), blk_id(p));
         w.fins[i].extend(o.fins);
         for e in o.events {
+            w.mons[i].observe_pool_event(&e);
             w.cores[i].q.push_back(e);
         }
         self.settle(w, i);
@@ -525,6 +550,7 @@ impl Sys for ClusterSys {
                             let o = w.cores[*i].pool.add_vote(vv).1;
                             w.fins[*i].extend(o.fins);
                             for e in o.events {
+                                w.mons[*i].observe_pool_event(&e);
                                 w.cores[*i].q.push_back(e);
                             }
                             self.settle(&mut w, *i);
@@ -566,6 +592,7 @@ impl Sys for ClusterSys {
                 let o = w.cores[i].pool.add_vote(vv).1;
                 w.fins[i].extend(o.fins);
                 for e in o.events {
+                    w.mons[i].observe_pool_event(&e);
                     w.cores[i].q.push_back(e);
                 }
                 self.settle(w, i);
@@ -680,6 +707,8 @@ pub struct LiveSys {
     pub inner: ClusterSys,
     /// judge completed worlds for agreement (C01) instead of progress (C02)
     pub safety: bool,
+    /// judge only the real nodes' own votes (C05), in the prefix and during completion
+    pub own_votes: bool,
     pub done: std::sync::Mutex<std::collections::HashSet<u64>>,
     pub completions: std::sync::atomic::AtomicUsize,
     pub max_rounds: std::sync::atomic::AtomicUsize,
@@ -694,7 +723,7 @@ pub struct LiveWorld {
 
 impl LiveSys {
     pub fn new(inner: ClusterSys) -> Self {
-        Self { inner, safety: false, done: Default::default(), completions: Default::default(), max_rounds: Default::default(), shapes: Default::default() }
+        Self { inner, safety: false, own_votes: false, done: Default::default(), completions: Default::default(), max_rounds: Default::default(), shapes: Default::default() }
     }
 
     /// Agreement on the completed world: observers over everything really signed, plus the real
@@ -730,6 +759,14 @@ impl LiveSys {
     fn judge_completed(&self, w: &ClusterWorld, out: &mut StepOutcome) {
         use std::sync::atomic::Ordering::Relaxed;
         let _ = Relaxed;
+        if self.own_votes {
+            for (k, what) in &w.own_vote_violations {
+                out.push(k.clone(), format!("{what} [during fair completion]"));
+            }
+            let shape: String = w.emitted.iter().map(|e| e.iter().filter(|m| matches!(m, ConsensusMessage::Vote(_))).count().to_string()).collect::<Vec<_>>().join("/");
+            self.shapes.lock().unwrap().insert(shape);
+            return;
+        }
         if self.safety {
             return self.judge_safety(w, out);
         }
@@ -790,8 +827,14 @@ impl Sys for LiveSys {
         if self.safety && (!check || out.fatal || w.w.out_of_scope) {
             return out;
         }
+        if self.own_votes {
+            out.violations.clear();
+            for (k, what) in std::mem::take(&mut w.w.own_vote_violations) {
+                out.push(k, what);
+            }
+        }
         // panics of node cores are progress failures as well; safety keys stay with C01
-        if !self.safety {
+        if !self.safety && !self.own_votes {
             out.violations.retain(|(k, _)| !k.starts_with("C01:") || k.starts_with("C01:node-panics"));
             for v in out.violations.iter_mut() {
                 v.0 = v.0.replace("C01:node-panics", "C02:node-panics");
@@ -821,7 +864,7 @@ impl Sys for LiveSys {
             Ok(rounds) => {
                 self.completions.fetch_add(1, std::sync::atomic::Ordering::Relaxed);
                 self.max_rounds.fetch_max(rounds, std::sync::atomic::Ordering::Relaxed);
-                if rounds > 60 && self.safety {
+                if rounds > 60 && (self.safety || self.own_votes) {
                 } else if rounds > 60 {
                     out.push("C02:fair-completion-does-not-quiesce".to_string(), "after 60 rounds of delivering everything and firing timeouts the nodes are still producing new messages".to_string());
                 } else {
@@ -830,7 +873,8 @@ impl Sys for LiveSys {
             }
             Err(p) => {
                 let msg = p.downcast_ref::<String>().cloned().or_else(|| p.downcast_ref::<&str>().map(|s| s.to_string())).unwrap_or_default();
-                if self.safety {
+                if self.own_votes {
+                } else if self.safety {
                     if msg.contains("consensus safety violation") {
                         let mut o2 = StepOutcome::ok();
                         self.inner.oracle(&copy, &mut o2);
